@@ -58,13 +58,28 @@ func (c *Choices) Choose(site string, n int) int {
 		v = c.rng.Intn(n)
 	case c.pos < len(c.replay):
 		e := c.replay[c.pos]
-		c.pos++
 		if e.Site != site || e.N != n {
 			if c.strict {
-				panic(Divergence{fmt.Sprintf("decision %d: trace has %s/%d, code asks %s/%d", c.pos-1, e.Site, e.N, site, n)})
+				panic(Divergence{fmt.Sprintf("decision %d: trace has %s/%d, code asks %s/%d", c.pos, e.Site, e.N, site, n)})
 			}
 			c.Diverged = true
+			// lenient: resynchronise on the next recorded decision for this
+			// site (the candidate dropped some decisions), else default
+			found := -1
+			for j := c.pos; j < len(c.replay) && j < c.pos+256; j++ {
+				if c.replay[j].Site == site && c.replay[j].N == n {
+					found = j
+					break
+				}
+			}
+			if found < 0 {
+				c.Trace = append(c.Trace, Choice{site, n, 0})
+				return 0
+			}
+			c.pos = found
+			e = c.replay[c.pos]
 		}
+		c.pos++
 		v = e.C
 		if v >= n || v < 0 {
 			v = 0
